@@ -94,6 +94,25 @@ func (t *Table) scope(db, alias string) *scope {
 	return t.newScope(db, alias)
 }
 
+// Clone returns a table with its own row list (the rows themselves are shared: UPDATE
+// replaces rows, it never writes into one).
+func (t *Table) Clone() *Table {
+	return &Table{DB: t.DB, Name: t.Name, Cols: t.Cols, Rows: append(make([][]Value, 0, len(t.Rows)), t.Rows...), sc: t.sc}
+}
+
+// CloneWith returns a database in which the tables selected by mutable are clones and all
+// other tables are shared with d.
+func (d *DB) CloneWith(mutable func(*Table) bool) *DB {
+	n := &DB{Default: d.Default, FoundRows: d.FoundRows, Tables: make(map[string]*Table, len(d.Tables))}
+	for k, t := range d.Tables {
+		if mutable(t) {
+			t = t.Clone()
+		}
+		n.Tables[k] = t
+	}
+	return n
+}
+
 func (t *Table) newScope(db, alias string) *scope {
 	sc := &scope{cols: make([]scol, 0, len(t.Cols))}
 	for _, c := range t.Cols {
